@@ -1,0 +1,42 @@
+//go:build verif
+
+package hydrex
+
+// Machine-checked contracts (comment-only; compiled only with -tags verif).
+//
+// Property C27 (the reverse index stays consistent with the core data). The store is reached through the
+// SDK interface (assumed: the five catalog calls are only counted; what the callback of CatalogReadMany put
+// into `existingCoreData` is ARBITRARY here, i.e. every possible stored state is covered). Under contract is
+// Save's diffing, for every stored state, every item map and every iteration order of the two Go maps:
+//   - only keys the domain no longer has are deleted, one index request per deleted key, each naming exactly
+//     this domain;
+//   - EVERY item that is new for the domain or whose value differs from the stored one is written to the
+//     core data with its new value (the domain reads back its last saved items), and a new key gets exactly
+//     one index entry naming this domain;
+//   - the deletes go to the domain's core swamp, and so does the write.
+//@ trusted func (github.com/hydraide/hydraide/sdk/go/hydraidego/v3.Hydraidego).CatalogReadMany(h, ctx, n, index, model, it) (err)
+//@   modifies *
+//@ trusted func (github.com/hydraide/hydraide/sdk/go/hydraidego/v3.Hydraidego).CatalogDeleteMany(h, ctx, n, keys, it) (err)
+//@ trusted func (github.com/hydraide/hydraide/sdk/go/hydraidego/v3.Hydraidego).CatalogDeleteManyFromMany(h, ctx, reqs, it) (err)
+//@ trusted func (github.com/hydraide/hydraide/sdk/go/hydraidego/v3.Hydraidego).CatalogSaveMany(h, ctx, n, models, it) (err)
+//@ trusted func (github.com/hydraide/hydraide/sdk/go/hydraidego/v3.Hydraidego).CatalogSaveManyToMany(h, ctx, reqs, it) (err)
+//@ func (*hydrex).createCoreDataName(h, indexName, domain) (n)
+//@   opaque
+//@ func (*hydrex).createIndexName(h, indexName, key) (n)
+//@   opaque
+
+//@ func (*hydrex).Save(h, ctx, indexName, domain, items)
+//@   property C27
+//@   overflow: assumed
+//@   requires[items] forall k in keys(items): items[k] != nil
+//@   requires[store] h.hydraidegoInterface != nil
+//@   modifies *
+//@   loop 0 invariant[one_index_request_per_deleted_key] len(deleteManyFromManyReq) == len(itemsForDelete)
+//@   loop 0 iteration[a_key_the_domain_no_longer_has_is_deleted_with_its_index_entry] !has(items, key) ==> len(itemsForDelete) == old(len(itemsForDelete)) + 1 && itemsForDelete[len(itemsForDelete)-1] == key && len(deleteManyFromManyReq) == old(len(deleteManyFromManyReq)) + 1 && len(deleteManyFromManyReq[len(deleteManyFromManyReq)-1].Keys) == 1 && deleteManyFromManyReq[len(deleteManyFromManyReq)-1].Keys[0] == domain
+//@   loop 0 iteration[a_key_the_domain_still_has_is_kept] has(items, key) ==> len(itemsForDelete) == old(len(itemsForDelete)) && len(deleteManyFromManyReq) == old(len(deleteManyFromManyReq))
+//@   loop 1 iteration[a_new_or_changed_item_is_written_with_its_new_value] (!has(existingCoreData, key) || existingCoreData[key].Value != data.Value) ==> len(itemsForSave) == old(len(itemsForSave)) + 1 && holdsptr(itemsForSave[len(itemsForSave)-1], "CoreData") && asptr(itemsForSave[len(itemsForSave)-1], "CoreData").Key == key && asptr(itemsForSave[len(itemsForSave)-1], "CoreData").Value == data.Value
+//@   loop 1 iteration[an_unchanged_item_is_not_rewritten] has(existingCoreData, key) && existingCoreData[key].Value == data.Value ==> len(itemsForSave) == old(len(itemsForSave)) && len(saveManyToManyReq) == old(len(saveManyToManyReq))
+//@   loop 1 iteration[only_a_new_key_gets_an_index_entry_for_this_domain] (has(existingCoreData, key) ==> len(saveManyToManyReq) == old(len(saveManyToManyReq))) && (!has(existingCoreData, key) ==> len(saveManyToManyReq) == old(len(saveManyToManyReq)) + 1)
+//@   loop 1 iteration[earlier_writes_are_kept] forall j in 0..old(len(itemsForSave)): itemsForSave[j] == old(itemsForSave[j])
+//@   before Hydraidego.CatalogSaveMany [writes_to_the_domain_core] arg2 == lastret("hydrex.createCoreDataName") && sliceid(arg3) == sliceid(itemsForSave) && len(arg3) == len(itemsForSave)
+//@   before Hydraidego.CatalogDeleteMany [deletes_from_the_domain_core] arg2 == lastret("hydrex.createCoreDataName") && sliceid(arg3) == sliceid(itemsForDelete) && len(arg3) == len(itemsForDelete)
